@@ -260,9 +260,17 @@ def _run(res, chunk, k, opt):
             _do(res, {'base': bi, 'dev': ['cut', n], 'opt': opt}, every=199)
         _do(res, {'base': bi, 'dev': ['cut', len(base)], 'opt': opt})
     elif k == 'corrupt':
+        seen = {}
         for off in range(len(base)):
             for v in repl_values(base[off], chunk['vals']):
                 _do(res, {'base': bi, 'dev': ['set', off, v], 'opt': opt})
+                # the command line has its own error handling: hand it every class of failure this chunk produces
+                # (the first three inputs of each outcome class), not only the strided sample of the 'cli' chunk
+                oc = LAST['outcome'] or ''
+                if oc.startswith('exc:') or oc == 'empty':
+                    seen[oc] = seen.get(oc, 0) + 1
+                    if seen[oc] <= 3:
+                        _do(res, {'base': bi, 'dev': ['set', off, v], 'opt': opt, 'cli': True})
     elif k == 'cli':
         for n in range(len(base) + 1):
             _do(res, {'base': bi, 'dev': ['cut', n], 'opt': opt, 'cli': True}, every=199)
@@ -281,6 +289,25 @@ def _run(res, chunk, k, opt):
                 _do(res, {'base': None, 'dev': ['raw', bytes(t).hex()], 'opt': opt})
         for t in ('5048', '50480030', '504800300100', '5048003001003100' + '00' * 40 + '5548'):
             _do(res, {'base': None, 'dev': ['raw', t], 'opt': opt, 'cli': True})
+        # failure classes that byte corruption of the base PELs does not reach: recursion limit in the JSON user data,
+        # a PCE identity that is too small but consistent with every enclosing length
+        deep = ('[' * 30000 + ']' * 30000).encode()
+        co = {'prio': 0x48, 'loc': 'U1-P1', 'loclen': 8, 'fru': {'flags': 0x18, 'pn': 'PN'},
+              'pce': {'mtm': 'MT', 'sn': 'S', 'name': '', 'namelen': 0}}
+        for spec in ({'sections': [{'t': 'UD', 'comp': 0x2000, 'sub': 1, 'payload': deep.hex()}]},
+                     {'sections': [{'t': 'PS', 'callouts': [co]}, {'t': 'MT'}]}):
+            b = bytearray(pelgen.encode_pel(pelgen.pel_from_spec(spec)))
+            if 'callouts' in spec['sections'][0]:
+                i = bytes(b).rfind(b'PE')
+                sec = 72
+                b[i + 2] = 20                                    # PCE size below the 24-byte minimum ...
+                del b[i + 20:i + 24]                             # ... the four bytes really absent, every enclosing length adjusted
+                b[sec + 80 + 4] -= 4
+                b[sec + 80 + 2:sec + 80 + 4] = (int.from_bytes(b[sec + 80 + 2:sec + 80 + 4], 'big') - 1).to_bytes(2, 'big')
+                b[sec + 2:sec + 4] = (int.from_bytes(b[sec + 2:sec + 4], 'big') - 4).to_bytes(2, 'big')
+                b[sec + 8 + 6:sec + 8 + 8] = (int.from_bytes(b[sec + 8 + 6:sec + 8 + 8], 'big') - 4).to_bytes(2, 'big')
+            _do(res, {'base': None, 'dev': ['raw', bytes(b).hex()], 'opt': opt})
+            _do(res, {'base': None, 'dev': ['raw', bytes(b).hex()], 'opt': opt, 'cli': True})
     elif k == 'pairs':
         szs = size_offsets(bi)
         vals = [0x00, 0x01, 0x04, 0x08, 0x7f, 0x80, 0xfe, 0xff]
